@@ -161,10 +161,18 @@ class Polygon(Shape2D):
         # Note: Vertices do not yet need to be ordered for the purpose of
         # determining the normal, this check can be performed irrespective of
         # ordering since any cross product of vectors will provide a normal.
-        computed_normal = np.cross(
-            self._vertices[2, :] - self._vertices[1, :],
-            self._vertices[0, :] - self._vertices[1, :],
-        )
+        # The first three vertices define the normal unless they are collinear (a
+        # straight corner), in which case the next corner that is not straight is used.
+        num_verts = len(self._vertices)
+        for i in range(num_verts):
+            corner = self._vertices[(i + 1) % num_verts]
+            forward = self._vertices[(i + 2) % num_verts] - corner
+            backward = self._vertices[i] - corner
+            computed_normal = np.cross(forward, backward)
+            if np.linalg.norm(computed_normal) > 1e-12 * np.linalg.norm(
+                forward
+            ) * np.linalg.norm(backward):
+                break
         computed_normal /= np.linalg.norm(computed_normal)
         if normal is None:
             self._normal = computed_normal
